@@ -217,6 +217,71 @@ def strip_docs(sx):
     return re.sub(r"\d+:\d+-\d+:\d+", "_", sx)
 
 
+def doc_location_defects(fsx, text):
+    """every location inside a doc comment lies within that comment's lines: the comment's own extent runs over `///` lines only and starts at the
+    slashes, everything inside it lies within that extent, a tag's extent starts at its '@word', a link's at '@link'"""
+    out = []
+    lines_ = text.split("\n")
+
+    def span(x):
+        a, b = x.split("-")
+        (r1, c1), (r2, c2) = [int(v) for v in a.split(":")[-2:]], [int(v) for v in b.split(":")[-2:]]
+        return (r1, c1), (r2, c2)
+
+    def at(pos, n):
+        r, c = pos
+        return lines_[r - 1][c - 1:c - 1 + n] if 1 <= r <= len(lines_) else None
+
+    def walk(x):
+        if not isinstance(x, list):
+            return
+        if x and x[0] == "doc" and len(x) > 1 and x[1] != "-":
+            d0, d1 = span(x[1])
+            if not (1 <= d0[0] <= d1[0] <= len(lines_)):
+                out.append("comment extent %s outside the file" % x[1])
+                return
+            for r in range(d0[0], d1[0] + 1):
+                if not lines_[r - 1].lstrip(" \t\u3000\xa0\u2003").startswith("///"):
+                    out.append("comment extent %s covers line %d, which is not a doc comment line: %r" % (x[1], r, lines_[r - 1][:60]))
+            if d0[1] - 1 < lines_[d0[0] - 1].index("///"):
+                out.append("comment extent %s starts before the slashes of its line" % x[1])
+            if d1[1] > len(lines_[d1[0] - 1].rstrip("\r")) + 1:
+                out.append("comment extent %s ends beyond its line" % x[1])
+
+            # the comment's lines as written: the run of doc comment lines around the recorded extent
+            isdoc = lambda r: 1 <= r <= len(lines_) and lines_[r - 1].lstrip(" \t\u3000\xa0\u2003").startswith("///")
+            lo, hi = d0[0], d1[0]
+            while isdoc(lo - 1):
+                lo -= 1
+            while isdoc(hi + 1):
+                hi += 1
+
+            def inner(y):
+                if not isinstance(y, list):
+                    return
+                for k, z in enumerate(y):
+                    if isinstance(z, str) and k > 0 and "-" in z and ":" in z and z[0].isdigit():
+                        try:
+                            s0, s1 = span(z)
+                        except ValueError:
+                            continue
+                        if not (lo <= s0[0] <= s1[0] <= hi) or s0 > s1 or s0[1] - 1 < lines_[s0[0] - 1].index("///") or s1[1] > len(lines_[s1[0] - 1].rstrip("\r")) + 1:
+                            out.append("%s part %s lies outside the lines of its comment %s" % (y[0], z, x[1]))
+                        elif y[0] in ("p", "r", "s", "l"):
+                            want = {"p": "@param", "r": "@returns", "s": "@see", "l": "@link"}[y[0]]
+                            if at(s0, len(want)) != want:
+                                out.append("%s part %s starts at %r, not at %s" % (y[0], z, at(s0, 10), want))
+                    elif isinstance(z, list):
+                        inner(z)
+            for sec in x[2:]:
+                inner(sec)
+            return
+        for y in x:
+            walk(y)
+    walk(fsx)
+    return out
+
+
 def run(ck):
     rng = ck.rng
     n = 1500 if ck.tier == "quick" else 15000
@@ -237,6 +302,7 @@ def run(ck):
         order = list(range(len(texts)))
         rng.shuffle(order)
         p.crlf = crlf
+        p.order = order
         progs.append(p)
         lines.append("dump - " + " ".join(hx(texts[j]) for j in order))
         # the same program without any doc comment
@@ -308,6 +374,11 @@ def run(ck):
         if bdiags:
             ck.violation("comments", "generator-invalid", case, "no diagnostics without comments", str(bdiags[:2])[:300], kind="correspondence")
             continue
+        # 0. locations inside comments lie within the comment's lines
+        texts_ = p.render(p.crlf)
+        for k, fsx in enumerate(files):
+            for defect in doc_location_defects(fsx, texts_[p.order[k]])[:2]:
+                ck.violation("comments", "comment-location-outside-comment", case, "every part of a doc comment within that comment's lines", defect)
         # 1. comments never cost the element or its siblings, and produce warnings only
         if strip_docs(files) != strip_docs(bfiles):
             ck.violation("comments", "element-changed-by-comment", case, "the same AST (comments and locations aside) as without comments", "differs")
